@@ -840,6 +840,116 @@ func TestFreeRunning(t *testing.T) {
 	})
 }
 
+// ------------------------------------------------------------------ blob storm: sub-operation windows
+
+// TestBlobStorm: several goroutines, each with its own handle on ONE file, repeat a short generated body of size-changing
+// and reading operations a few hundred times on real cores. The cooperative scheduler's granularity is one blob operation;
+// windows INSIDE an operation (a length read before the lock is taken, a bound checked before the copy) are only reachable
+// this way. Oracle: every goroutine finishes (no deadlock), nothing panics, and afterwards the file is still usable and
+// consistent (Stat size == bytes read, a fresh write/truncate works).
+func TestBlobStorm(t *testing.T) {
+	vf.Check(t, "storm", func(rt *rapid.T, rec *vf.Rec) {
+		nt := rapid.IntRange(2, 4).Draw(rt, "threads")
+		p := Program{Setup: []Op{{K: "hopen", P: "b", Flag: os.O_RDWR | os.O_CREATE}, {K: "hwrite", Data: "0123456789"}, {K: "hclose"}}}
+		for th := 0; th < nt; th++ {
+			flag := rapid.SampledFrom([]int{os.O_RDWR, os.O_RDWR, os.O_WRONLY | os.O_APPEND}).Draw(rt, "flag")
+			body := []Op{{K: "hopen", P: "b", Flag: flag}}
+			n := rapid.IntRange(1, 4).Draw(rt, "nops")
+			for i := 0; i < n; i++ {
+				o := Op{K: rapid.SampledFrom([]string{"htrunc", "htrunc", "htrunc", "hwrite", "hwrite", "hread"}).Draw(rt, "k")}
+				switch o.K {
+				case "htrunc":
+					o.N = rapid.IntRange(0, 12).Draw(rt, "n")
+				case "hwrite":
+					o.Data = rapid.StringMatching("[A-Z]{1,6}").Draw(rt, "data")
+				}
+				body = append(body, o)
+			}
+			p.Threads = append(p.Threads, body)
+		}
+		rec.Step(p)
+		rec.NonTrivial()
+		if sig, msg := runStorm(p); sig != "" {
+			rec.Failf(rt, sig, "%s", msg)
+		}
+	})
+}
+
+func runStorm(p Program) (string, string) {
+	for rep := 0; rep < 3; rep++ {
+		w := newPlainWorld(p)
+		var wg sync.WaitGroup
+		panics := make(chan string, 8)
+		start := make(chan struct{})
+		for th := range p.Threads {
+			th := th
+			wg.Add(1)
+			go func() {
+				defer wg.Done()
+				defer func() {
+					if r := recover(); r != nil {
+						panics <- fmt.Sprint(r)
+					}
+				}()
+				_ = apply(w, th, p.Threads[th][0])
+				<-start
+				for iter := 0; iter < 300; iter++ {
+					for _, o := range p.Threads[th][1:] {
+						_ = apply(w, th, o)
+					}
+				}
+			}()
+		}
+		close(start)
+		done := make(chan struct{})
+		go func() { wg.Wait(); close(done) }()
+		select {
+		case <-done:
+		case <-time.After(vf.WatchdogDur()):
+			return "C15 storm:deadlock", fmt.Sprintf("program %v did not finish when run on real goroutines (an operation on the shared file blocks forever)", p.Threads)
+		}
+		select {
+		case m := <-panics:
+			return "C15 storm:panic", fmt.Sprintf("program %v: %s", p.Threads, m)
+		default:
+		}
+		// the file is still usable and consistent
+		var prob string
+		pan, hung := vf.Guard(func() {
+			fi, err := hackpadfs.Stat(w.fs, "b")
+			if err != nil {
+				prob = "Stat: " + err.Error()
+				return
+			}
+			b, err := hackpadfs.ReadFile(w.fs, "b")
+			if err != nil || int64(len(b)) != fi.Size() {
+				prob = fmt.Sprintf("Stat size %d, ReadFile %d bytes, %v", fi.Size(), len(b), err)
+				return
+			}
+			f, err := hackpadfs.OpenFile(w.fs, "b", os.O_RDWR, 0)
+			if err != nil {
+				prob = "OpenFile: " + err.Error()
+				return
+			}
+			defer func() { _ = f.Close() }()
+			if err := hackpadfs.TruncateFile(f, 1); err != nil {
+				prob = "Truncate: " + err.Error()
+				return
+			}
+			if _, err := hackpadfs.WriteFile(f, []byte("zz")); err != nil {
+				prob = "Write: " + err.Error()
+			}
+		})
+		if hung {
+			return "C15 storm:deadlock", fmt.Sprintf("after program %v the shared file no longer answers (Stat/ReadFile/Truncate/Write block)", p.Threads)
+		}
+		if pan != "" || prob != "" {
+			return "C15 storm:inconsistent", fmt.Sprintf("after program %v: %s %s", p.Threads, prob, pan)
+		}
+	}
+	return "", ""
+}
+
 // ------------------------------------------------------------------ replay
 
 func TestReplayAll(t *testing.T) {
@@ -858,6 +968,22 @@ func TestReplayAll(t *testing.T) {
 			})
 		})
 	}
+	t.Run("storm", func(t *testing.T) {
+		vf.Replay(t, "storm", func(steps []json.RawMessage) (string, string) {
+			for _, raw := range steps {
+				var p Program
+				if err := json.Unmarshal(raw, &p); err != nil || len(p.Threads) == 0 {
+					continue
+				}
+				for i := 0; i < 5; i++ { // real goroutines: the window is hit with some probability per run
+					if sig, msg := runStorm(p); sig != "" {
+						return sig, msg
+					}
+				}
+			}
+			return "", ""
+		})
+	})
 	for _, leg := range []string{"observers", "observers-canon"} {
 		leg := leg
 		t.Run(leg, func(t *testing.T) {
